@@ -163,22 +163,29 @@ class _DatasetFillerContext:
         ))
 
         # Open a new shard if the current one already contains too many
-        # examples.
-        if (current_progress.written_examples >= self._examples_per_shard or
-                metadata_changed):
+        # examples. A shard without examples (its only write was rejected)
+        # cannot be closed, it is used for this example.
+        if ((current_progress.written_examples >= self._examples_per_shard or
+             metadata_changed) and current_progress.written_examples > 0):
             # Close the current shard if needed.
             self.close_shard(shard=current_progress.shard, split=split)
             current_progress.shard = self._get_new_shard(split=split)
             current_progress.written_examples = 0
 
         # Update custom_metadata is needed
+        shard_info: ShardInfo = current_progress.shard.shard_info
+        metadata_before: dict[str, Any] = shard_info.custom_metadata
         if custom_metadata:
             # Copy so that the caller may reuse or mutate the passed object.
-            current_progress.shard.shard_info.custom_metadata = copy.deepcopy(
-                custom_metadata)
+            shard_info.custom_metadata = copy.deepcopy(custom_metadata)
 
         # Write the current example and update counters.
-        current_progress.shard.write(values=values)
+        try:
+            current_progress.shard.write(values=values)
+        except Exception:
+            # A rejected example may not change the metadata of the shard.
+            shard_info.custom_metadata = metadata_before
+            raise
         current_progress.written_examples += 1
 
         # We have updated the current progress.
